@@ -1,0 +1,75 @@
+//go:build verif
+
+// Contracts for the bmverif deductive checker (comment-only; compiled only under -tags verif).
+// Property C11, shared objects: a shared object is persisted as the text its instance prints (Bondmachine.Jsoner
+// stores so.String()) and is rebuilt by the matching Instantiate; for the shared-object kinds below printing and
+// parsing are proved to be inverse on every parameter value, so the reloaded object has the saved parameters.
+
+package bondmachine
+
+//@ props C11
+
+//@ func (sm Lfsr8_instance) String() string
+//@   ensures text: result == cat("lfsr8:", itoa(int(sm.Seed)))
+
+//@ func (op Lfsr8) Instantiate(s string) (Shared_instance, bool)
+//@   ensures parse: forall k int :: 0 <= k && k < 256 && s == cat("lfsr8:", itoa(k)) ==>
+//@             result1 && istype(result, Lfsr8_instance) && int(unbox(result, Lfsr8_instance).Seed) == k
+//@   ensures ok: result1 ==> istype(result, Lfsr8_instance)
+//@   ensures claim: result1 ==> len(s) >= 6 && sub(s, 0, 6) == "lfsr8:"
+
+//@ func (sm Barrier_instance) String() string
+//@   ensures text: result == cat("barrier:", itoa(sm.Timeout))
+
+//@ func (op Barrier) Instantiate(s string) (Shared_instance, bool)
+//@   ensures parse: forall k int :: s == cat("barrier:", itoa(k)) ==>
+//@             result1 && istype(result, Barrier_instance) && unbox(result, Barrier_instance).Timeout == k
+//@   ensures ok: result1 ==> istype(result, Barrier_instance)
+//@   ensures claim: result1 ==> len(s) >= 8 && sub(s, 0, 8) == "barrier:"
+
+//@ func (sm Queue_instance) String() string
+//@   ensures text: result == cat("queue:", itoa(sm.Depth))
+
+//@ func (op Queue) Instantiate(s string) (Shared_instance, bool)
+//@   ensures parse: forall k int :: s == cat("queue:", itoa(k)) ==>
+//@             result1 && istype(result, Queue_instance) && unbox(result, Queue_instance).Depth == k
+//@   ensures ok: result1 ==> istype(result, Queue_instance)
+//@   ensures claim: result1 ==> len(s) >= 6 && sub(s, 0, 6) == "queue:"
+
+//@ func (sm Stack_instance) String() string
+//@   ensures text: result == cat("stack:", itoa(sm.Depth))
+
+//@ func (op Stack) Instantiate(s string) (Shared_instance, bool)
+//@   ensures parse: forall k int :: s == cat("stack:", itoa(k)) ==>
+//@             result1 && istype(result, Stack_instance) && unbox(result, Stack_instance).Depth == k
+//@   ensures ok: result1 ==> istype(result, Stack_instance)
+//@   ensures claim: result1 ==> len(s) >= 6 && sub(s, 0, 6) == "stack:"
+
+//@ func (sm Sharedmem_instance) String() string
+//@   ensures text: result == cat("sharedmem:", itoa(sm.Depth))
+
+//@ func (op Sharedmem) Instantiate(s string) (Shared_instance, bool)
+//@   ensures parse: forall k int :: s == cat("sharedmem:", itoa(k)) ==>
+//@             result1 && istype(result, Sharedmem_instance) && unbox(result, Sharedmem_instance).Depth == k
+//@   ensures ok: result1 ==> istype(result, Sharedmem_instance)
+//@   ensures claim: result1 ==> len(s) >= 10 && sub(s, 0, 10) == "sharedmem:"
+
+//@ func (sm Channel_instance) String() string
+//@   ensures text: result == "channel:"
+
+//@ func (op Channel) Instantiate(s string) (Shared_instance, bool)
+//@   ensures parse: s == "channel:" ==> result1 && istype(result, Channel_instance)
+//@   ensures ok: result1 ==> istype(result, Channel_instance)
+//@   ensures claim: result1 ==> len(s) >= 8 && sub(s, 0, 8) == "channel:"
+
+// kinds whose parameters are parsed with strings.Split: only the claim on the text's prefix is decided
+//@ func (op Kbd) Instantiate(s string) (Shared_instance, bool)
+//@   ensures claim: result1 ==> len(s) >= 4 && sub(s, 0, 4) == "kbd:"
+
+//@ func (op Uart) Instantiate(s string) (Shared_instance, bool)
+//@   ensures claim: result1 ==> len(s) >= 5 && sub(s, 0, 5) == "uart:"
+//@   ensures ok: result1 ==> istype(result, Uart_instance)
+
+//@ func (op Vtextmem) Instantiate(s string) (Shared_instance, bool)
+//@   ensures claim: result1 ==> len(s) >= 9 && sub(s, 0, 9) == "vtextmem:"
+//@   loop 1: invariant stride: 1 <= i && (i - 1) % 5 == 0 && (componentsN - 1) % 5 == 0 && componentsN == len(components)
